@@ -34,13 +34,15 @@ class Stats:
 
     def add(self, o):
         for k in self.__dict__:
+            if k == "cross":
+                continue
             if k == "max_query_s":
                 self.max_query_s = max(self.max_query_s, o.max_query_s)
             else:
                 setattr(self, k, getattr(self, k) + getattr(o, k))
 
     def as_dict(self):
-        d = dict(self.__dict__)
+        d = {k: v for k, v in self.__dict__.items() if k != "cross"}
         d["solver_s"] = round(d["solver_s"], 3)
         d["max_query_s"] = round(d["max_query_s"], 3)
         return d
@@ -140,8 +142,57 @@ class Ctx:
         st.solver_s += dt
         st.max_query_s = max(st.max_query_s, dt)
         setattr(st, r if r in ("sat", "unsat") else "unknown", getattr(st, r if r in ("sat", "unsat") else "unknown") + 1)
+        if r in ("sat", "unsat") and dt < 5.0:
+            self._cross_check(s, r)
         self._last = s
         return r
+
+    def _cross_check(self, solver, z3_result):
+        """Second opinion: a seeded sample of the decided queries is exported as SMT-LIB2 and re-decided by cvc5
+        (Python wheel, 20 s limit).  A disagreement is recorded and turns the job into a harness error."""
+        import os, random
+        rate = float(os.environ.get("SYMX_CROSS", "0.02"))
+        if rate <= 0:
+            return
+        self._cross_rng = getattr(self, "_cross_rng", None) or random.Random(self.seed * 7919 + 13)
+        if self._cross_rng.random() >= rate:
+            return
+        cc = self.stats.__dict__.setdefault("cross", {"checked": 0, "agree": 0, "inconclusive": 0, "disagree": []})
+        try:
+            text = solver.to_smt2()
+            if "FloatingPoint" in text or "RoundingMode" in text or len(text) > 3_000_000:
+                return
+            import tempfile
+            import cvc5
+            with tempfile.NamedTemporaryFile("w", suffix=".smt2", delete=False) as f:
+                f.write("(set-logic ALL)\n" + text)
+                path = f.name
+            try:
+                slv = cvc5.Solver()
+                slv.setOption("tlimit-per", "20000")
+                parser = cvc5.InputParser(slv)
+                parser.setFileInput(cvc5.InputLanguage.SMT_LIB_2_6, path)
+                sm = parser.getSymbolManager()
+                out = ""
+                while True:
+                    cmd = parser.nextCommand()
+                    if cmd.isNull():
+                        break
+                    res = cmd.invoke(slv, sm)
+                    if res:
+                        out += str(res)
+            finally:
+                os.unlink(path)
+            ans = out.strip().split()[-1] if out.strip() else "unknown"
+            cc["checked"] += 1
+            if ans == z3_result:
+                cc["agree"] += 1
+            elif ans in ("sat", "unsat"):
+                cc["disagree"].append("z3 %s / cvc5 %s" % (z3_result, ans))
+            else:
+                cc["inconclusive"] += 1
+        except Exception as e:  # noqa - the second opinion must never break a check
+            cc["inconclusive"] += 1
 
     def is_sat(self, conds, timeout_ms=None):
         """sat / unsat / unknown of  base & pc & conds."""
